@@ -313,7 +313,11 @@ def edge_cases(mode, years):
 
 EDGE_YEARS = list(range(-12, 13)) + list(range(1895, 1906)) + \
     list(range(1996, 2033)) + list(range(2095, 2106)) + \
-    list(range(9988, 10000)) + [400, 800, 1600, 2400, -400, -2000, 1000]
+    list(range(9988, 10000)) + [400, 800, 1600, 2400, -400, -2000, 1000] + \
+    [10 ** 16 + k for k in range(8)] + [2 ** 53 + 1, 2 ** 53 + 5,
+                                        10 ** 17 + 3, 10 ** 18 + 5,
+                                        -2 * 10 ** 16 - 3, -10 ** 17 - 1]
+# (the last rows: years beyond the integers a float holds exactly)
 
 
 def truncated_cases(mode):
@@ -636,16 +640,37 @@ def long_digit_cases(rng, n):
     for k in range(n):
         digits = "".join(rng.choice("0123456789")
                          for _ in range(rng.choice((22, 28, 34, 40, 60))))
-        v = k % 7
-        if v == 6:
-            # a repetition count beyond the range of a float (the interval
-            # arithmetic fails at once; counts below that are arithmetic
-            # proportional to their size and are not generated)
+        v = k % 8
+        if v == 7:
+            # a decimal fraction far longer than a float's precision or
+            # range: no arithmetic follows, the value is simply 0.ddd...
+            frac = "".join(rng.choice("0123456789")
+                           for _ in range(rng.choice((40, 320, 400, 1000))))
+            head = rng.choice(("2000-01-01T00:00:00", "20000101T0000",
+                               "2000-001T06", "2000-W01-1T23:59:59"))
+            tail = rng.choice(("", "Z", "+01:00" if "-" in head[:5] and
+                               ":" in head else "+0100"))
+            kind = k % 3
+            if kind == 0:
+                text = head + rng.choice(",.") + frac + tail
+                parser = "TimePointParser"
+            elif kind == 1:
+                text = "R2/" + head + "," + frac + "Z/PT1H"
+                parser = "TimeRecurrenceParser"
+            else:
+                text = "P0001-01-01T00:00:00," + frac
+                parser = "DurationParser"
+        elif v == 6:
+            # a repetition count beyond the range of a float times an
+            # interval with a decimal component (the interval arithmetic
+            # fails at once; counts below that, or with whole-number
+            # intervals, are arithmetic proportional to their size and are
+            # not generated)
             huge = "".join(rng.choice("123456789")
                            for _ in range(rng.choice((320, 400, 1000))))
             text = "R" + huge + rng.choice((
-                "/2000-01-01T00:00:00Z/P1D", "/PT1H/20000101T00Z",
-                "/2000-W01-1T06Z/P1Y"))
+                "/2000-01-01T00:00:00Z/P1DT0,5S", "/PT1,5H/20000101T00Z",
+                "/2000-W01-1T06Z/P1YT0,25M"))
             parser = "TimeRecurrenceParser"
         elif v == 0:
             text = "PT" + digits + rng.choice(units)
